@@ -107,6 +107,11 @@ NESTED_ITEMS = [
      'struct K { #[partial_eq(ignore)] a: [u8; { struct I { #[partial_eq(ignore)] #[hash(ignore)] x: u8 } 2 }], #[hash(ignore)] b: u8 }',
      'struct K { a: [u8; { struct I { #[partial_eq(ignore)] #[hash(ignore)] x: u8 } 2 }], b: u8 }'),
     ('', 'struct X<T> { #[derive_ex(Clone(bound(T)))] a: T, b: u8 }', 'struct X<T> { a: T, b: u8 }'),
+    # lists spelled with the crate name in front are lists of the request: read and removed; other paths are foreign
+    ('Clone', '#[::derive_ex::derive_ex(Debug)] #[foo::derive_ex(Hash)] struct X(#[derive_ex::derive_ex(Clone)] u8, #[debug(ignore)] u8);',
+     '#[foo::derive_ex(Hash)] struct X(u8, u8);'),
+    ('PartialEq', '#[derive_ex::derive_ex(Hash)] #[::derive_ex(Clone)] enum E { A(#[eq(key = $ % 3)] u8), #[derive_ex::derive_ex::derive_ex(Clone)] B }',
+     '#[::derive_ex(Clone)] enum E { A(u8), #[derive_ex::derive_ex::derive_ex(Clone)] B }'),
     ('bound(T)', 'enum E<T> { #[derive_ex(Clone(bound(T)))] A(#[derive_ex(Debug)] T), B }', 'enum E<T> { A(T), B }'),
     ('', '#[derive_ex()] #[derive_ex(bound(T))] struct X<T>(#[derive_ex(Clone)] T);', 'struct X<T>(T);'),
     ('Clone',
